@@ -72,7 +72,7 @@ C05_Recorded(C, R) ==
 
 (* ---------------------------------------------------------------- C06 *)
 C06_Solution(C, R) ==
-    (IsSol(R) /\ C.n > 0) =>
+    IsSol(R) =>
       IF C.dense
       THEN /\ R.hasspan
            /\ (C.n > 0 /\ C.x0.b # C.xend.b => R.span.lo.b = C.x0.b)             \* covered span starts at x0
